@@ -331,11 +331,7 @@ func (c *cmafIngester) start(ctx context.Context) {
 		deltaTime = time.Duration(availabilityTime-int64(nowMS)) * time.Millisecond
 	}
 	timer = time.NewTimer(deltaTime)
-	defer func() {
-		if !timer.Stop() {
-			<-timer.C
-		}
-	}()
+	defer timer.Stop()
 
 	// Main loop for sending segments
 	for {
